@@ -18,9 +18,15 @@ Post(p) ==
     /\ \A q \in Pools : /\ connks'[q] = p.connks[q]
                         /\ borrowed'[q] = p.borrowed[q]
                         /\ pstate[q] # "shutdown" => poolks'[q] = p.poolks[q]
+                        /\ newks'[q] = p.newks[q]
 
-TraceInit == tid \in 1..NTraces /\ l = 1 /\ Init /\ Len(Traces[tid][1].pstate) = NPools
-             /\ \A q \in Pools : pstate[q] = Traces[tid][1].pstate[q] /\ outcome[q] = Traces[tid][1].outcome[q]
+TraceInit ==
+    /\ tid \in 1..NTraces /\ l = 1
+    /\ Len(Traces[tid][1].pstate) = NPools
+    /\ pstate = [q \in Pools |-> Traces[tid][1].pstate[q]]          \* the recorded configuration, then Init checks it
+    /\ outcome = [q \in Pools |-> Traces[tid][1].outcome[q]]
+    /\ rph = [q \in Pools |-> Traces[tid][1].rph[q]]
+    /\ Init
 
 TraceNext ==
     /\ l <= Len(Tr)
@@ -32,6 +38,10 @@ TraceNext ==
              \/ e.e = "PoolFinish" /\ PoolFinish(e.p)
              \/ e.e = "Reconnect"  /\ Reconnect(e.p)
              \/ e.e = "Borrow"     /\ Borrow(e.p)
+             \/ e.e = "RCheck"     /\ RCheck(e.p)
+             \/ e.e = "ROpen"      /\ ROpen(e.p)
+             \/ e.e = "RUse"       /\ RUse(e.p)
+             \/ e.e = "RPublish"   /\ RPublish(e.p)
           /\ Post(e.post)
 
 TraceSpec == TraceInit /\ [][TraceNext]_tvars
